@@ -106,6 +106,24 @@ def _antitone_domain_rule(text, rec):
     return False
 
 
+def _derived_input_domain(text, rec):
+    try:
+        import semcheck
+        from ngo.dependency import DomainPredicates
+        from ngo.normalize import preprocess
+        from ngo.utils.globals import UniqueNames
+        prg = semcheck.parse(text)
+        inputs, _ = semcheck.resolve_declarations(prg, text, rec.get("inp", "auto"), rec.get("outp", "auto"))
+        prg = preprocess(prg)
+        dp = DomainPredicates(UniqueNames(prg, inputs), prg)
+        for p in inputs:
+            if p in dp.domains and (dp.domains[p].name + "(") in rec["result"]:
+                return True
+    except Exception:  # noqa
+        return False
+    return False
+
+
 def falsified(text, flags, rec=None):
     prg = corpus.parses(text) or []
     keys = set()
@@ -284,6 +302,9 @@ def falsified(text, flags, rec=None):
         # predicate that is not static, and the result does use domain predicates
         if "Hyp_dom_positive" not in keys and "__dom_" in rec["result"] and _antitone_domain_rule(text, rec):
             keys.add("Hyp_dom_positive")
+    # D38: a declared input predicate that is also derived gets a domain computed from its rules alone
+    if rec is not None and rec.get("result") and "__dom_" in rec["result"] and _derived_input_domain(text, rec):
+        keys.add("Hyp_inputs_underived")
     # D33 (instance dependent): the result applies arithmetic to a non-integer where the source did not
     if rec is not None and rec.get("result_undefined") and "math" in on:
         keys.add("Hyp_integers_only")
